@@ -27,7 +27,12 @@ func genOps(r *rand.Rand, w *bufio.Writer, soak bool) {
 		k = n
 	}
 	v := 1 + r.Intn(3)
-	fmt.Fprintf(w, "new %d %d %d\n", n, k, v)
+	if r.Intn(4) == 0 {
+		// another task keeps the only worker busy: the request waits in the queue behind it
+		fmt.Fprintf(w, "new %d %d %d 1\n", n, k, v)
+	} else {
+		fmt.Fprintf(w, "new %d %d %d\n", n, k, v)
+	}
 	var g genState
 	if soak {
 		// free-running executor: gates off (some of them), everything may race
@@ -150,7 +155,7 @@ func Gen(seed int64, n int, tier string, w *bufio.Writer) {
 	if tier == "thorough" {
 		// bounded exhaustive: every stimulus sequence of length <= 4 over an 8-letter alphabet, 2 configurations
 		alphabet := []string{"adv", "resp 0 14 1 ok", "resp 0 20 1 ok", "resp 0 31 0 ok", "cancelapi", "cancelctx", "pause", "unpause"}
-		cfgs := []string{"new 2 1 1", "new 2 0 2"}
+		cfgs := []string{"new 2 1 1", "new 2 0 2", "new 2 1 1 1"}
 		id := 0
 		var rec func(prefix []string, depth int)
 		rec = func(prefix []string, depth int) {
